@@ -3,6 +3,7 @@
 package main
 
 import (
+	"hash/fnv"
 	"bufio"
 	"encoding/json"
 	"flag"
@@ -83,7 +84,7 @@ func cmdRun(args []string) {
 			defer rec.Close()
 			for i := w; i < len(scheds); i += *workers { // static assignment: trace files are a function of the inputs
 				s := scheds[i]
-				st := RunSchedule(gen, tmp, *seed+int64(i)*7919, rec, s)
+				st := RunSchedule(gen, tmp, scheduleSeed(*seed, s.ID), rec, s)
 				mu.Lock()
 				for k, v := range st {
 					stats[k] += v
@@ -95,6 +96,14 @@ func cmdRun(args []string) {
 	wg.Wait()
 	bz, _ := json.Marshal(stats)
 	fmt.Println("STATS", string(bz))
+}
+
+// scheduleSeed: the amounts drawn for a schedule are a function of the run's seed and the schedule's identity (not of its
+// position in the batch), so that a schedule replayed alone draws exactly the amounts it drew in the batch that found it.
+func scheduleSeed(seed int64, id string) int64 {
+	h := fnv.New64a()
+	h.Write([]byte(id))
+	return seed*1000003 + int64(h.Sum64()>>1)
 }
 
 // RunSchedule executes one schedule on a fresh chain, recording into rec.
